@@ -318,9 +318,16 @@ TOPO_PAIRS = [
 ]
 
 
+def rand_refname(rng):
+    r = rng.random()
+    if r < 0.4:
+        return []                                   # harness default
+    return ["refname " + rng.choice(["-", "s", hx(" "), hx("base.xml"), hx("dir/with space/t.xml")] + [hx(v) for v in RICH])]
+
+
 def gen_case(rng, name, topo, objs, nbl_guess, kind):
     st = State(objs)
-    lines = ["case " + name, "xmlbackend %d %d" % (rng.randint(0, 1), rng.randint(0, 1)), topo]
+    lines = ["case " + name, "xmlbackend %d %d" % (rng.randint(0, 1), rng.randint(0, 1))] + rand_refname(rng) + [topo]
     lines += setup_edits(rng, st, rich=True)
     if kind in ("pair", "both") and rng.random() < 0.06:
         ta, tb = rng.choice(TOPO_PAIRS)
@@ -551,4 +558,23 @@ def bytes_cases():
                               "a infoadd 2 0 %s %s" % (hx("J"), hx("w")),
                               "b name 1 0 %s" % h, "b name 1 1 %s" % hx("new"), "b infoset 1 0 0 %s" % hx("v"),
                               "b infoset 2 0 0 %s" % h, "build", "end"])
+    return cases
+
+
+# ---- refnames: NULL, empty, blank, file names, every byte class, very long; empty and non-empty lists; 2 x 2 backends ----
+def refname_cases(base):
+    refs = [("null", "-"), ("empty", "s"), ("blank", hx(" ")), ("file", hx("reference-topology.xml")), ("path", hx("/some dir/a&b<c>.xml"))]
+    refs += [("b-" + k, hx(v)) for k, v in BYTE_CLASSES.items() if v]
+    refs += [("long%d" % n, "@%d" % n) for n in (255, 256, 4096, 20000)]
+    refs += [("longesc", "@9000:e")]
+    if base is not None:
+        # the document itself at 16383..16385 bytes by the refname alone (empty list: base counts one entry with a 100-char value)
+        refs += [("tuned%d" % t, "@%d" % max(1, t - base + 150)) for t in (16384, 32768)]
+    cases = []
+    for e in (0, 1):
+        for i in (0, 1):
+            for nm, tok in refs:
+                for n, entries in ((0, []), (2, ["D a 1 0 name - %s %s" % (hx("a"), hx("b")), "D a -3 0 size 0 1 2"])):
+                    cases.append(["case ref-e%d-i%d-%s-n%d" % (e, i, nm, n), "xmlbackend %d %d" % (e, i), "refname " + tok, XML_TOPO,
+                                  "xmlhand %d" % n] + entries + ["end"])
     return cases
